@@ -386,6 +386,16 @@ def tileThenRead {α} [BEq α] (z : α) (Ms : List (Int × Img α)) (R C tr tc :
         | .error e => .error e
         | .ok lut => readRegion z lut frames R C tr tc (some chan) rs re cs ce asIdx full true
 
+/-- paste the tile cut at offsets `o = (column, row)` back at the same place -/
+def pasteStep {α} (z : α) (M : Img α) (R C tr tc : Int) (acc : Except ErrKind (Img α)) (o : Int × Int) : Except ErrKind (Img α) :=
+  match acc with
+  | .error e => .error e
+  | .ok out =>
+    match getTileArray z M R C o.2 o.1 tr tc with
+    | .error e => .error e
+    | .ok t => .ok (fun i j => if o.2 - 1 ≤ i ∧ i < o.2 - 1 + tr ∧ o.1 - 1 ≤ j ∧ j < o.1 - 1 + tc
+                               then t (i - (o.2 - 1)) (j - (o.1 - 1)) else out i j)
+
 /-- cut a matrix into all its tiles and paste them back at their offsets into an array of the padded size -/
 def cutPaste {α} (z : α) (M : Img α) (R C tr tc : Int) : Except ErrKind (Int × Int × Img α) :=
   match tileOffsets tr tc R C with
@@ -394,15 +404,7 @@ def cutPaste {α} (z : α) (M : Img α) (R C tr tc : Int) : Except ErrKind (Int 
     match tilesPerAxisFloor tr tc R C with
     | .error e => .error e
     | .ok (nCol, nRow) =>
-      let step (acc : Except ErrKind (Img α)) (o : Int × Int) : Except ErrKind (Img α) :=
-        match acc with
-        | .error e => .error e
-        | .ok out =>
-          match getTileArray z M R C o.2 o.1 tr tc with
-          | .error e => .error e
-          | .ok t => .ok (fun i j => if o.2 - 1 ≤ i ∧ i < o.2 - 1 + tr ∧ o.1 - 1 ≤ j ∧ j < o.1 - 1 + tc
-                                     then t (i - (o.2 - 1)) (j - (o.1 - 1)) else out i j)
-      match offs.foldl step (.ok (fun _ _ => z)) with
+      match offs.foldl (pasteStep z M R C tr tc) (.ok (fun _ _ => z)) with
       | .error e => .error e
       | .ok out => .ok (nRow * tr, nCol * tc, out)
 
